@@ -133,7 +133,7 @@ def _run_config(c):
     planar = (obl is None) or obl == 0.0
     V = _Viol()
     stats = dict(calls=0, c10_defect_calls=0, worst_energy=0.0, worst_angmom=0.0, worst_array=0.0, balances=0,
-                 dedt_e0_checked=0)
+                 dedt_e0_checked=0, transient_exceptions=0)
     _, _, efunc, ifunc = find_mode_manipulators(lmax, N, use_obl)
     inc_tab = ifunc(obl if use_obl else 0.0)
     beta = m1 * m2 / (m1 + m2)
@@ -214,6 +214,16 @@ def _run_config(c):
                 stats['c10_defect_calls'] += 1
                 return None
             t = type(ex).__name__
+            if t != 'ZeroDivisionError':
+                # a deterministic defect raises again; a transient infrastructure hiccup (cold numba cache being filled by 16
+                # processes at once) does not
+                try:
+                    r = fn()
+                    stats['transient_exceptions'] += 1
+                    return r
+                except Exception as ex2:       # noqa: BLE001
+                    ex = ex2
+                    t = type(ex).__name__
             where = dict(form=form, spin_over_n=[float(np.asarray(s_).ravel()[0]) / n for s_ in spins], e=e, msg=str(ex)[:200])
             if t == 'ZeroDivisionError' and not _is_arr(e) and e == 0.0 and mode_sum_probe is not None:
                 try:
@@ -449,11 +459,19 @@ def _run_config(c):
                 out.update(ecc_part())
             except Exception as ex:           # noqa: BLE001
                 t = type(ex).__name__
-                if t == 'ZeroDivisionError' and scal_e0:
-                    V.add('C11/bare/dedt-at-e0/ZeroDivisionError', dict(where, form=form, msg=str(ex)[:100]))
-                else:
-                    V.add(f'C11/bare/exception/{t}', dict(where, form=form, msg=str(ex)[:200]))
-                out['dedt_s'] = out['dedt_d'] = None
+                if t != 'ZeroDivisionError':          # retry once: transient infrastructure hiccups do not repeat
+                    try:
+                        out.update(ecc_part())
+                        stats['transient_exceptions'] += 1
+                        ex = None
+                    except Exception as ex2:          # noqa: BLE001
+                        ex, t = ex2, type(ex2).__name__
+                if ex is not None:
+                    if t == 'ZeroDivisionError' and scal_e0:
+                        V.add('C11/bare/dedt-at-e0/ZeroDivisionError', dict(where, form=form, msg=str(ex)[:100]))
+                    else:
+                        V.add(f'C11/bare/exception/{t}', dict(where, form=form, msg=str(ex)[:200]))
+                    out['dedt_s'] = out['dedt_d'] = None
             out['H'] = [r0['tidal_heating'], r1['tidal_heating']]
             return out
 
@@ -564,6 +582,7 @@ def run(ctx):
         if cfg and 'only_config' not in v['case']:
             v['case'] = dict(v['case'], only_config=cfg)
     ctx.coverage.update(real_calls=agg.get('calls', 0), calls_dying_with_a_C10_defect=agg.get('c10_defect_calls', 0), bundles=len(cs),
+                        transient_exceptions_gone_on_retry=agg.get('transient_exceptions', 0),
                         configurations_per_bundle=ncfg, configurations_admitted=n_adm,
                         balances_checked=agg.get('balances', 0), dedt_at_e0_checked=agg.get('dedt_e0_checked', 0),
                         worst_energy_residual=agg.get('worst_energy'), worst_angular_momentum_residual=agg.get('worst_angmom'),
